@@ -25,6 +25,10 @@
 EXTENDS LZ77
 
 HashKinds == {"HP", "BHP", "DHP", "BDHP", "BUP"}
+
+(* the brute-force oracles of C12 are cubic: above this many buffered bytes *)
+(* the check works with counter-witnesses proposed by the harness instead  *)
+OracleMax == 300
 BackKinds == {"BHP", "BDHP"}
 
 PInit(c) == [inp |-> <<>>, off0 |-> 0, w |-> 0, nils |-> 0, c |-> c]
@@ -65,7 +69,7 @@ SeqRules(st, s, pos, blockEnd, scanEnd, heavy) ==
         => At(st, pos - 1) # At(st, pos - 1 - Off(s))>>,
     (* C12: GSAP takes the longest match available in the buffered data *)
     <<"C12.match_longest",
-      ("C12" \in heavy /\ c.kind = "GSAP" /\ st.nils = 0)
+      ("C12" \in heavy /\ c.kind = "GSAP" /\ st.nils = 0 /\ Buffered(st) <= OracleMax)
         => MLen(s) = LPM(st.inp, st.off0, pos, scanEnd)>>
   }
 
@@ -160,6 +164,21 @@ RoundTrip(st, e) ==
   /\ ExpandDefined(h, e.seqs, e.lits)
   /\ Expand(h, e.seqs, e.lits) = SubSeq(st.inp, 1, st.w + e.n)
 
+RECURSIVE MatchAt(_, _, _, _)
+MatchAt(seqs, i, pos0, x) ==        \* length of the match that starts at absolute position x (0: none)
+  IF i > Len(seqs) THEN 0
+  ELSE LET pos == pos0 + Lit(seqs[i]) IN
+       IF pos = x THEN MLen(seqs[i]) ELSE MatchAt(seqs, i + 1, pos + MLen(seqs[i]), x)
+
+CwValid(st, e, cw, blockEnd, scanEnd) ==
+  LET x == cw[1]
+      j == cw[2]
+      l == cw[3]
+  IN /\ j >= st.off0 /\ j < x /\ x >= st.w /\ x < blockEnd /\ l >= 1 /\ x + l <= scanEnd
+     /\ SubSeq(st.inp, j + 1, j + l) = SubSeq(st.inp, x + 1, x + l)
+     /\ \/ (MatchAt(e.seqs, 1, st.w, x) > 0 /\ MatchAt(e.seqs, 1, st.w, x) < l)
+        \/ (st.c.B <= st.c.Wnd /\ l >= st.c.mm /\ x \in LitPositions(e.seqs, 1, st.w, blockEnd, {}))
+
 ParseRules(st, e, heavy) ==
   LET c  == st.c
       un == Unparsed(st)
@@ -195,9 +214,18 @@ ParseRules(st, e, heavy) ==
            => Len(e.lits) <= (IF c.kind \in HashKinds THEN 1 ELSE c.mm)>>,
        (* C12: with the whole buffer inside the window a literal is justified *)
        <<"C12.literal_justified",
-         ("C12" \in heavy /\ c.kind = "GSAP" /\ st.nils = 0 /\ c.B <= c.Wnd)
+         ("C12" \in heavy /\ c.kind = "GSAP" /\ st.nils = 0 /\ c.B <= c.Wnd /\ Buffered(st) <= OracleMax)
            => \A q \in LitPositions(e.seqs, 1, st.w, blockEnd, {}) :
                 LPM(st.inp, st.off0, q, scanEnd) < c.mm>>,
+       (* C12 on long buffers: a counter-witness <<position, source, length>>  *)
+       (* proposed by the harness counts only if TLC finds it valid: the       *)
+       (* source lies in the retained buffer in front of the position, the     *)
+       (* bytes agree for `length` bytes inside the scanned range, and the     *)
+       (* position is a match start with a shorter match, or (buffer no larger *)
+       (* than the window) a literal position with length >= MinMatchLen       *)
+       <<"C12.no_longer_match",
+         ("C12" \in heavy /\ c.kind = "GSAP" /\ st.nils = 0 /\ "cw" \in DOMAIN e)
+           => \A k \in 1..Len(e.cw) : ~CwValid(st, e, e.cw[k], blockEnd, scanEnd)>>,
        (* C11: no cheaper parse of the same block exists *)
        <<"C11.cost_optimal",
          ("C11" \in heavy /\ c.kind = "OSAP" /\ e.flags = 0 /\ e.n <= 80)
